@@ -182,6 +182,7 @@ func (ex *Exec) runPath(r *Runner, h *Harness, prefix []decision) {
 	ex.events = nil
 	ex.tagCount = map[string]int{}
 	ex.onceDone = map[*Cell]bool{}
+	ex.pools = map[*Cell][]Value{}
 	ex.newScheduler()
 	q0, t0 := ex.solver.Queries, ex.solver.Time
 
